@@ -2521,6 +2521,8 @@ Proof.
   destruct (negb (mode_eqb (m_mode m) RW)) eqn:Em; [eapply ospec_refuse; [exact Hctx | | reflexivity]; discriminate |].
   destruct (odname_eqb (Some d) (i_head (m_info m))) eqn:Eh; [eapply ospec_refuse; [exact Hctx | | reflexivity]; discriminate |].
   destruct (odname_eqb (i_parent (m_info m)) (Some d)) eqn:Ep; [eapply ospec_refuse; [exact Hctx | | reflexivity]; discriminate |].
+  destruct (match m_disks m d with Some x => match d_parent x with None => true | Some _ => false end | None => false end) eqn:Eb;
+    [eapply ospec_refuse; [exact Hctx | | reflexivity]; discriminate |].
   assert (Hdh : d <> Head n).
   { intro E. subst d. rewrite Hmh, odname_eqb_refl in Eh. discriminate. }
   destruct (m_disks m d) as [dd |] eqn:Hmd.
@@ -2587,7 +2589,7 @@ Proof.
         -- exact Hpar.
       * exact Hag'.
       * match goal with |- ids_fresh ?x => assert (Hx : x = fst (ff (remove_diff_disk g m (mb_name dmb)) w)) end.
-        { unfold remove_diff_disk. rewrite Em, Eh, Ep.
+        { unfold remove_diff_disk. rewrite Em, Eh, Ep, Hmd, Eb.
           rewrite ff_bind, Hff2. cbn [is_ok res_eqb negb]. rewrite Hff3. reflexivity. }
         rewrite Hx. apply ff_fresh. exact Hfr.
       * exact Hheads'.
@@ -4098,6 +4100,7 @@ Proof.
   destruct (negb (mode_eqb (m_mode m) RW)); [cbn; unfold Qop; cbn; discriminate |].
   destruct (odname_eqb (Some d) _); [cbn; unfold Qop; cbn; discriminate |].
   destruct (odname_eqb _ (Some d)); [cbn; unfold Qop; cbn; discriminate |].
+  destruct (match m_disks m d with Some x => _ | None => false end); [cbn; unfold Qop; cbn; discriminate |].
   eapply durP_bind; [apply durP_true |]. intros [m1 e1] pd1 _.
   destruct (negb (is_ok e1)) eqn:E1; [cbn; unfold Qop; cbn; intro H; exfalso; exact (is_ok_false e1 E1 H) |].
   eapply durP_bind; [apply dp_rm_some |]. intros e2 pd2 [_ H2]. cbn. unfold Qop. intros _. exact H2.
@@ -4411,4 +4414,59 @@ Proof.
   { destruct o; cbn [ok_step shape_ok] in *; try (apply ok_op_repaired; assumption || exact I).
     split; [exact Ho | apply ok_op_repaired; assumption]. }
   split; [exact Hstep |]. apply IH; try assumption. apply step_inv; assumption.
+Qed.
+
+(** the C12 oracle on model traces: two representative histories (refusals, removal, revert, mark
+    removed, process death, reopen).  The general statement (for every history with [ok_hist] and a
+    universe covering its names the oracle is true on [trace_ops]) is NOT proved; the checks evaluate
+    the oracle on the model's own trace of every executed history instead ([model_oracle]). *)
+Example c12_oracle_model_ex1 :
+  let u := [Head 0; Head 1; Head 2; Head 3; Head 4; Head 5; Snap 0; Snap 1; Snap 2; Snap 3; Snap 9; Odd 2] in
+  let os := [OCreate 16384 7; OOpen; OSetMode (Some RW); OWrite; OSnap 1 true 1; OWrite; OSnap 2 false 2; OSnap 3 false 3;
+             OPrep (Snap 2); OPrep (Odd 2); OPrep (Snap 3); OPrep (Snap 9); ORemove (Snap 9); ORemove (Snap 3);
+             ORemove (Snap 2); OSnap 1 false 4; ORevert (Snap 9) 5; OResize 8192; OClose; OOpen; OCrash; OOpen] in
+  c12_oracle None obs0 os (trace_ops (cfg_asis 8) u init os) = true.
+Proof. vm_compute. reflexivity. Qed.
+
+Example c12_oracle_model_ex2 :
+  let u := [Head 0; Head 1; Head 2; Head 3; Head 4; Snap 0; Snap 1; Snap 2] in
+  let os := [OCreate 16384 7; OOpen; OSetMode (Some WO); OSnap 1 false 1; ORemove (Snap 1); OSetMode (Some RW); OSnap 2 true 2;
+             ORevert (Snap 1) 9; OCheckpoint (Some (Snap 1)); ORebuilding true; ORebuilding true; OCrash; OCreate 16384 8; OOpen] in
+  c12_oracle None obs0 os (trace_ops (cfg_asis 8) u init os) = true.
+Proof. vm_compute. reflexivity. Qed.
+
+(** the C08 kill oracle at the level of views, on the model: after process death at any call and a
+    reopen, the open succeeds and the reopened replica shows the old or the new chain *)
+Theorem kill_reopen_model : forall g s o k,
+  cfg_ok g -> InvS g s -> plain o -> ok_op g s o ->
+  let w' := dir_of_run (exec (op_prog g (s_mem s) o) (s_fs s) 0 (Some k) None) in
+  let s2 := fst (fst (step g (mkst w' None) OOpen)) in
+  exists vpre vpost v2 m2,
+    recover g (s_fs s) = Some vpre
+    /\ recover g (s_fs (fst (fst (step g s o)))) = Some vpost
+    /\ snd (fst (step g (mkst w' None) OOpen)) = ResOk
+    /\ recover g (s_fs s2) = Some v2 /\ (veq v2 vpre \/ veq v2 vpost)
+    /\ s_mem s2 = Some m2 /\ mchain g m2 = Some (names_of_chain (cv_chain v2)).
+Proof.
+  intros g s o k Hcfg Hinv Hpl Hok w' s2.
+  destruct (step_sspec g s o Hcfg Hinv Hok) as [v [Hrec [wf' [om' [r [k0 [vp [Hff [Hinv' [Hrec' [Hst Hr]]]]]]]]]]].
+  pose proof (crash_in_states _ (op_prog g (s_mem s) o) (s_fs s) k) as Hin. fold w' in Hin.
+  pose proof Hst as Hst0. eapply Forall_forall in Hst; [| exact Hin]. destruct Hst as [vk [Hk1 Hk2]].
+  destruct Hinv as [v0 [Hr0 [Hwf0 [Hfr0 _]]]]. rewrite Hrec in Hr0. inversion Hr0; subst v0.
+  destruct Hinv' as [vp' [Hrp [Hwfp _]]]. cbn [s_fs] in Hrp. rewrite Hrec' in Hrp. inversion Hrp; subst vp'.
+  assert (Hwfk : wf_view vk) by (destruct Hk2 as [E | E]; eapply wf_view_veq; eauto).
+  assert (Hfrk : ids_fresh w').
+  { pose proof (states_fresh _ (op_prog g (s_mem s) o) (s_fs s) Hfr0) as Hsf. eapply Forall_forall in Hsf; [exact Hsf | exact Hin]. }
+  destruct (construct_spec g w' vk (i_size (cv_info vk)) 0 Hk1 Hwfk Hfrk Hcfg) as [wF [mF [c [Hc HF]]]].
+  cbn zeta in HF. destruct HF as [HffF [HctxF [HmodeF [HinfoF [HstF HveqF]]]]].
+  destruct (recover_elim g w' vk Hk1) as [Hvolk _].
+  assert (Hstep2 : step g (mkst w' None) OOpen = (mkst wF (Some mF), ResOk, O)).
+  { rewrite (step_ff g (mkst w' None) OOpen wF (Some mF) Ok O); [reflexivity | intros; discriminate |].
+    cbn [op_prog s_mem s_fs]. unfold open_volume. cbn [ff apply_call]. rewrite Hvolk. rewrite ff_bind, HffF. reflexivity. }
+  subst s2. rewrite Hstep2. cbn [fst snd s_fs s_mem].
+  rewrite (step_ff g s o wf' om' r k0 (plain_not_crash o Hpl) Hff). cbn [fst s_fs].
+  eexists v, vp, _, mF. split; [exact Hrec |]. split; [exact Hrec' |]. split; [reflexivity |].
+  split; [apply HctxF |]. split.
+  - destruct Hk2 as [E | E]; [left | right]; (eapply veq_trans; [apply veq_sym; exact HveqF | exact E]).
+  - split; [reflexivity |]. apply (mchain_of_ctx g wF _ mF HctxF).
 Qed.
